@@ -85,12 +85,12 @@ Fixpoint pmems (cols : prow) (nf k : nat) : list string :=
 Fixpoint pdecl (cols : prow) (nf k : nat) (ms : frame) : Prop :=
   match cols with
   | [] => True
-  | (name, body) :: t => (exists old, frame_get (mem_name name (nf + k)) ms = Some (pa_type body, old)) /\ pdecl t nf (S k) ms
+  | (name, body) :: t => (exists old, frame_get (mem_name name (nf + k)) ms = Some (btype body, old)) /\ pdecl t nf (S k) ms
   end.
 Fixpoint pfilled (cols : prow) (nf k : nat) (ms : frame) (xs : list value) : Prop :=
   match cols, xs with
   | [], [] => True
-  | (name, body) :: t, x :: xs' => frame_get (mem_name name (nf + k)) ms = Some (pa_type body, x) /\ pfilled t nf (S k) ms xs'
+  | (name, body) :: t, x :: xs' => frame_get (mem_name name (nf + k)) ms = Some (btype body, x) /\ pfilled t nf (S k) ms xs'
   | _, _ => False
   end.
 
@@ -126,86 +126,171 @@ Proof.
   induction cols as [|[name body] t IH]; intros nf k m Hm; cbn [pmems] in Hm; [destruct Hm|].
   destruct Hm as [<-|Hm]; [eauto|exact (IH _ _ _ Hm)].
 Qed.
+Lemma pmem_not_if (cols : prow) (nf k : nat) (m : string) : In m (pmems cols nf k) -> forall j, String.eqb m (if_name j) = false.
+Proof.
+  intros Hm j. destruct (pmems_shape cols nf k m Hm) as (name & idx & ->).
+  destruct (String.eqb (mem_name name idx) (if_name j)) eqn:E; [|reflexivity]. apply String.eqb_eq in E. exfalso.
+  exact (mem_not_shape name idx "if_else_result" (S (S j)) eq_refl E).
+Qed.
 
-(* the assignments of one row: every column member receives the body's value on the element *)
-Lemma prow_sets_exec (brs : list branch) (ev : event) (iv : string) (ar : bool) (t : string) (v : value) (cols : prow) :
-  forall (nf k : nat) (s : state),
-  fget iv s = Some (t, v) ->
-  (forall m, In m (pmems cols nf k) -> fget m s = None) -> NoDup (pmems cols nf k) -> pdecl cols nf k (members s) ->
-  match dprow ev v cols with
-  | ROk xs => exists s', exec_stmts brs ev (prow_sets iv ar cols nf k) s = ROk s' /\ frames s' = frames s /\ rows s' = rows s /\
-                         (forall m, ~ In m (pmems cols nf k) -> mget m s' = mget m s) /\ pfilled cols nf k (members s') xs
-  | RFault f => exec_stmts brs ev (prow_sets iv ar cols nf k) s = RFault f
+(* the conditionals of all columns *)
+Lemma prow_ds_free (cols : prow) : forall m, init_free (prow_ds cols m).
+Proof. induction cols as [|[name body] t IH]; intro m; cbn [prow_ds]; [constructor|]. apply Forall_app. split; [apply bdecls_free|apply IH]. Qed.
+Lemma prow_ds_none (cols : prow) : forall m x, (forall k, k < prow_nifs cols -> String.eqb x (if_name (m + k)) = false) ->
+  frame_get x (dframe (prow_ds cols m)) = None.
+Proof.
+  induction cols as [|[name body] t IH]; intros m x H; cbn [prow_ds prow_nifs] in *; [reflexivity|].
+  rewrite dframe_app, frame_get_app. rewrite (bdecls_none body m x); [|intros k Hk; apply H; lia].
+  apply IH. intros k Hk. replace (m + nifs body + k) with (m + (nifs body + k)) by lia. apply H. lia.
+Qed.
+Lemma prow_ds_get (cols : prow) : forall m k, k < prow_nifs cols -> frame_get (if_name (m + k)) (dframe (prow_ds cols m)) = Some ("double", VUninit).
+Proof.
+  induction cols as [|[name body] t IH]; intros m k Hk; cbn [prow_ds prow_nifs] in *; [lia|].
+  rewrite dframe_app, frame_get_app.
+  destruct (Nat.lt_ge_cases k (nifs body)) as [Hlt|Hge].
+  - rewrite (bdecls_get body m k Hlt). reflexivity.
+  - rewrite (bdecls_none body m).
+    + replace (m + k) with (m + nifs body + (k - nifs body)) by lia. apply IH. lia.
+    + intros j Hj. destruct (String.eqb (if_name (m + k)) (if_name (m + j))) eqn:E; [|reflexivity].
+      apply String.eqb_eq, if_name_inj in E. lia.
+Qed.
+
+Lemma prow_pre_exec (brs : list branch) (ev : event) (g : guard) (n : nat) (iv : string) (ar : bool) (v : value) (st : state) (cols : prow) :
+  (forall j, String.eqb (if_name j) iv = false) ->
+  forall m T, frame_get iv T = None ->
+  (forall k, k < prow_nifs cols -> exists old, frame_get (if_name (m + k)) T = Some ("double", old)) ->
+  match dprow_conds ev v cols with
+  | ROk rs => exec_stmts brs ev (prow_pre iv ar cols m) (istate g n iv v T st) = ROk (istate g n iv v (tsets m rs T) st) /\
+              List.length rs = prow_nifs cols /\ Forall (fun r => r <> VUninit) rs
+  | RFault f => exec_stmts brs ev (prow_pre iv ar cols m) (istate g n iv v T st) = RFault f
   | RStuck _ => True
   end.
 Proof.
-  induction cols as [|[name body] tl IH]; intros nf k s Hiv Sep Nd D; cbn [dprow prow_sets pmems pdecl pfilled] in *.
-  - exists s. repeat split; auto.
+  intro Hifiv. induction cols as [|[name body] t IH]; intros m T Hiv Hin; cbn [dprow_conds prow_pre prow_nifs] in *.
+  - repeat split; auto.
+  - rewrite exec_stmts_app.
+    pose proof (bpre_exec brs ev g n iv ar v st body Hifiv m T Hiv ltac:(intros k Hk; apply Hin; lia)) as B.
+    destruct (dconds ev v body) as [l1|f|k]; cbn [rbind]; [|rewrite B; reflexivity|exact I].
+    destruct B as (E1 & L1 & N1). rewrite E1. cbn [rbind].
+    assert (Hiv1 : frame_get iv (tsets m l1 T) = None).
+    { rewrite tsets_other; [exact Hiv|]. intro j. rewrite String.eqb_sym. apply Hifiv. }
+    assert (Hin1 : forall k, k < prow_nifs t -> exists old, frame_get (if_name (m + nifs body + k)) (tsets m l1 T) = Some ("double", old)).
+    { intros k Hk. apply tsets_keeps. replace (m + nifs body + k) with (m + (nifs body + k)) by lia. apply Hin. lia. }
+    specialize (IH (m + nifs body) (tsets m l1 T) Hiv1 Hin1).
+    destruct (dprow_conds ev v t) as [l2|f|k]; cbn [rbind]; [|exact IH|exact I].
+    destruct IH as (E2 & L2 & N2). split; [|split].
+    + rewrite E2. rewrite tsets_app, L1. reflexivity.
+    + rewrite app_length. lia.
+    + apply Forall_app. split; assumption.
+Qed.
+
+(* the assignments of one row: every column member receives the body's value on the element *)
+Lemma prow_sets_exec (brs : list branch) (ev : event) (g : guard) (n : nat) (iv : string) (ar : bool) (v : value) (T : frame) :
+  (forall j, String.eqb (if_name j) iv = false) -> frame_get iv T = None ->
+  (forall y, (forall j, String.eqb y (if_name j) = false) -> String.eqb y iv = false -> frame_get y T = None) ->
+  forall (cols : prow) (nf k m : nat) (rs : list value) (st : state),
+  List.length rs = prow_nifs cols ->
+  (forall j, j < prow_nifs cols -> frame_get (if_name (m + j)) T = Some ("double", nth j rs VUninit) /\ nth j rs VUninit <> VUninit) ->
+  (forall mm, In mm (pmems cols nf k) -> fget mm st = None) -> (forall mm, In mm (pmems cols nf k) -> String.eqb mm iv = false /\ String.eqb mm (bo_name n) = false) ->
+  NoDup (pmems cols nf k) -> pdecl cols nf k (members st) ->
+  match dprow_vals ev v cols rs with
+  | ROk xs => exists st', exec_stmts brs ev (prow_sets iv ar cols nf k m) (istate g n iv v T st) = ROk (istate g n iv v T st') /\
+                          frames st' = frames st /\ rows st' = rows st /\
+                          (forall mm, ~ In mm (pmems cols nf k) -> mget mm st' = mget mm st) /\ pfilled cols nf k (members st') xs
+  | RFault f => exec_stmts brs ev (prow_sets iv ar cols nf k m) (istate g n iv v T st) = RFault f
+  | RStuck _ => True
+  end.
+Proof.
+  intros Hifiv Hiv Hoth. induction cols as [|[name body] tl IH]; intros nf k m rs st Hlen Hin Sep Hne Nd D; cbn [dprow_vals prow_sets pmems pdecl pfilled prow_nifs] in *.
+  - exists st. repeat split; auto.
   - set (mem := mem_name name (nf + k)) in *. inversion Nd as [|? ? Nin Nd']; subst.
     destruct D as [(old & M) Dt].
-    destruct (dpa ev v body) as [x|f|kk] eqn:Ex; cbn [rbind]; [| |exact I].
+    set (S0 := istate g n iv v T st).
+    destruct (Hne mem (or_introl eq_refl)) as [Hmi Hmb].
+    assert (Hmf : forall j, String.eqb mem (if_name j) = false) by (apply (pmem_not_if ((name, body) :: tl) nf k mem); left; reflexivity).
+    assert (Hf0 : fget mem S0 = None) by (unfold S0; rewrite istate_fget_other; [apply Sep; left; reflexivity|exact Hmi|exact Hmb|apply Hoth; assumption]).
+    assert (Hm0 : mget mem S0 = Some (btype body, old)) by (unfold S0; rewrite mget_istate; exact M).
+    unfold S0 in *. clear S0.
+    destruct (dbx ev v body (firstn (nifs body) rs)) as [x|f|kk] eqn:Ex; cbn [rbind]; [| |exact I].
     + rewrite exec_stmts_cons, exec_set.
-      rewrite (eval_tpa ev s iv ar t v body (lookup_fget _ _ _ Hiv)); [|rewrite Ex; exact I]. rewrite Ex. cbn [rbind].
-      destruct (assign_updm mem (conv (pa_type body) x) s _ _ (Sep mem (or_introl eq_refl)) M) as (Ha & Hlk & G & O & Fr & Rw).
-      rewrite Hlk, Ha. cbn [rbind].
-      set (s1 := updm mem (conv (pa_type body) x) s) in *.
-      assert (Hiv1 : fget iv s1 = Some (t, v)) by (unfold s1; rewrite fget_updm; exact Hiv).
-      assert (Sep1 : forall m, In m (pmems tl nf (S k)) -> fget m s1 = None).
-      { intros m Hm. unfold s1. rewrite fget_updm. apply Sep. right; exact Hm. }
-      assert (Ne : forall m, In m (pmems tl nf (S k)) -> String.eqb m mem = false).
-      { intros m Hm. destruct (String.eqb m mem) eqn:E; [|reflexivity]. apply String.eqb_eq in E. subst m. contradiction. }
-      assert (Dt1 : pdecl tl nf (S k) (members s1)).
-      { eapply pdecl_ext; [|exact Dt]. intros m Hm. apply (O m (Ne m Hm)). }
-      specialize (IH nf (S k) s1 Hiv1 Sep1 Nd' Dt1).
-      destruct (dprow ev v tl) as [xs|f|kk]; cbn [rbind]; [|exact IH|exact I].
-      destruct IH as (s2 & E2 & F2 & R2 & Mo2 & Fi2).
-      exists s2. split; [exact E2|]. split; [congruence|]. split; [congruence|]. split; [|split].
-      * intros m Hm. rewrite Mo2; [apply O|]; [|intro H; apply Hm; right; exact H].
-        destruct (String.eqb m mem) eqn:E; [|reflexivity]. apply String.eqb_eq in E. exfalso. apply Hm. left; auto.
+      rewrite (bx_eval ev g n iv ar v st body Hifiv m T (firstn (nifs body) rs) Hiv); [| | |rewrite Ex; exact I].
+      2:{ rewrite firstn_length. lia. }
+      2:{ intros j Hj. rewrite nth_firstn_below; [apply Hin; lia|exact Hj]. }
+      rewrite Ex. cbn [rbind].
+      destruct (assign_updm mem (conv (btype body) x) _ _ _ Hf0 Hm0) as (Ha & Hlk & _).
+      rewrite Hlk, Ha. cbn [rbind]. rewrite updm_istate.
+      destruct (assign_updm mem (conv (btype body) x) st _ _ (Sep mem (or_introl eq_refl)) M) as (_ & _ & G & O & Fr & Rw).
+      set (st1 := updm mem (conv (btype body) x) st) in *.
+      assert (Sep1 : forall mm, In mm (pmems tl nf (S k)) -> fget mm st1 = None).
+      { intros mm Hm. unfold st1. rewrite fget_updm. apply Sep. right; exact Hm. }
+      assert (Ne : forall mm, In mm (pmems tl nf (S k)) -> String.eqb mm mem = false).
+      { intros mm Hm. destruct (String.eqb mm mem) eqn:E; [|reflexivity]. apply String.eqb_eq in E. subst mm. contradiction. }
+      assert (Dt1 : pdecl tl nf (S k) (members st1)).
+      { eapply pdecl_ext; [|exact Dt]. intros mm Hm. apply (O mm (Ne mm Hm)). }
+      specialize (IH nf (S k) (m + nifs body) (skipn (nifs body) rs) st1).
+      assert (Hlen1 : List.length (skipn (nifs body) rs) = prow_nifs tl) by (rewrite skipn_length; lia).
+      assert (Hin1 : forall j, j < prow_nifs tl -> frame_get (if_name (m + nifs body + j)) T = Some ("double", nth j (skipn (nifs body) rs) VUninit) /\ nth j (skipn (nifs body) rs) VUninit <> VUninit).
+      { intros j Hj. replace (m + nifs body + j) with (m + (nifs body + j)) by lia. rewrite nth_skipn_add. apply Hin. lia. }
+      specialize (IH Hlen1 Hin1 Sep1 ltac:(intros mm Hm; apply Hne; right; exact Hm) Nd' Dt1).
+      destruct (dprow_vals ev v tl (skipn (nifs body) rs)) as [xs|f|kk]; cbn [rbind]; [|exact IH|exact I].
+      destruct IH as (st2 & E2 & F2 & R2 & Mo2 & Fi2).
+      exists st2. split; [exact E2|]. split; [congruence|]. split; [congruence|]. split; [|split].
+      * intros mm Hm. rewrite Mo2; [apply O|]; [|intro H; apply Hm; right; exact H].
+        destruct (String.eqb mm mem) eqn:E; [|reflexivity]. apply String.eqb_eq in E. exfalso. apply Hm. left; auto.
       * pose proof (Mo2 mem Nin) as Q. unfold mget in Q. rewrite Q. exact G.
       * exact Fi2.
     + rewrite exec_stmts_cons, exec_set.
-      rewrite (eval_tpa ev s iv ar t v body (lookup_fget _ _ _ Hiv)); [|rewrite Ex; exact I]. rewrite Ex. reflexivity.
+      rewrite (bx_eval ev g n iv ar v st body Hifiv m T (firstn (nifs body) rs) Hiv); [| | |rewrite Ex; exact I].
+      2:{ rewrite firstn_length. lia. }
+      2:{ intros j Hj. rewrite nth_firstn_below; [apply Hin; lia|exact Hj]. }
+      rewrite Ex. reflexivity.
 Qed.
 
-(* the innermost statements: the assignments, then Fill *)
+(* the innermost statements: the conditionals, the assignments, then Fill *)
 Definition row_emitted (cols : prow) (nf : nat) (s s' : state) (rws : list (list value)) : Prop :=
   frames s' = frames s /\ rows s' = rows s ++ rws /\
   (forall m, ~ In m (pmems cols nf 0) -> mget m s' = mget m s) /\ pdecl cols nf 0 (members s').
 
-Lemma inner_exec (ev : event) (iv : string) (ar : bool) (fill t : string) (v : value) (cols : prow) (nf : nat) (s : state) :
-  fget iv s = Some (t, v) ->
-  (forall m, In m (pmems cols nf 0) -> fget m s = None) -> NoDup (pmems cols nf 0) -> pdecl cols nf 0 (members s) ->
+Lemma inner_exec (ev : event) (g : guard) (n : nat) (iv : string) (ar : bool) (fill : string) (v : value) (cols : prow) (nf m : nat) (st : state) :
+  (forall j, String.eqb (if_name j) iv = false) ->
+  (forall mm, In mm (pmems cols nf 0) -> fget mm st = None) ->
+  (forall mm, In mm (pmems cols nf 0) -> String.eqb mm iv = false /\ String.eqb mm (bo_name n) = false) ->
+  NoDup (pmems cols nf 0) -> pdecl cols nf 0 (members st) ->
+  let run := exec_stmts (prow_branches cols nf 0) ev (many_inner fill iv ar cols nf m) (istate g n iv v (dframe (prow_ds cols m)) st) in
   match dprow ev v cols with
-  | ROk xs => exists s', exec_stmts (prow_branches cols nf 0) ev (app_stmts (prow_sets iv ar cols nf 0) (one_stmt (SFill fill))) s = ROk s' /\
-                         row_emitted cols nf s s' [xs]
-  | RFault f => exec_stmts (prow_branches cols nf 0) ev (app_stmts (prow_sets iv ar cols nf 0) (one_stmt (SFill fill))) s = RFault f
+  | ROk xs => exists T' st', run = ROk (istate g n iv v T' st') /\ row_emitted cols nf st st' [xs]
+  | RFault f => run = RFault f
   | RStuck _ => True
   end.
 Proof.
-  intros Hiv Sep Nd D. rewrite exec_stmts_app.
-  pose proof (prow_sets_exec (prow_branches cols nf 0) ev iv ar t v cols nf 0 s Hiv Sep Nd D) as P.
-  destruct (dprow ev v cols) as [xs|f|k]; [|rewrite P; reflexivity|exact I].
-  destruct P as (s1 & E1 & F1 & R1 & Mo1 & Fi1). rewrite E1. cbn [rbind]. rewrite exec_one. cbn [exec_stmt].
-  rewrite (fill_row_pfilled cols nf 0 s1 xs Fi1).
-  eexists. split; [reflexivity|]. unfold row_emitted. cbn [frames rows members]. split; [exact F1|]. split; [congruence|]. split.
-  - intros m Hm. unfold mget in *. cbn [members]. apply (Mo1 m Hm).
-  - eapply pfilled_pdecl. exact Fi1.
-Qed.
-
-Lemma row_emitted_pop (cols : prow) (nf : nat) (pre : frame) (s s2 : state) (rws : list (list value)) :
-  row_emitted cols nf (enter pre s) s2 rws -> row_emitted cols nf s (pop_frame s2) rws.
-Proof.
-  intros (F & R & Mo & D). unfold row_emitted, pop_frame, mget in *. cbn [frames members rows enter] in *.
-  rewrite F. cbn [tl]. repeat split; auto.
-Qed.
-
-Lemma prow_sets_flat (iv : string) (ar : bool) (cols : prow) : forall nf k, flat_stmts (prow_sets iv ar cols nf k) = true.
-Proof. induction cols as [|[name body] t IH]; intros nf k; cbn [prow_sets flat_stmts flat_stmt andb]; [reflexivity|apply IH]. Qed.
-Lemma many_inner_flat (iv : string) (ar : bool) (fill : string) (cols : prow) (nf : nat) :
-  flat_stmts (app_stmts (prow_sets iv ar cols nf 0) (one_stmt (SFill fill))) = true.
-Proof.
-  generalize 0. induction cols as [|[name body] t IH]; intro k; cbn [prow_sets app_stmts flat_stmts flat_stmt andb one_stmt]; [reflexivity|apply IH].
+  intros Hifiv Sep Hne Nd D. cbn zeta. unfold many_inner, dprow. rewrite exec_stmts_app.
+  set (T0 := dframe (prow_ds cols m)).
+  assert (Hiv0 : frame_get iv T0 = None).
+  { apply prow_ds_none. intros k _. rewrite String.eqb_sym. apply Hifiv. }
+  assert (Hin0 : forall k, k < prow_nifs cols -> exists old, frame_get (if_name (m + k)) T0 = Some ("double", old)).
+  { intros k Hk. eexists. apply prow_ds_get, Hk. }
+  pose proof (prow_pre_exec (prow_branches cols nf 0) ev g n iv ar v st cols Hifiv m T0 Hiv0 Hin0) as P.
+  destruct (dprow_conds ev v cols) as [rs|f|k]; cbn [rbind]; [|rewrite P; reflexivity|exact I].
+  destruct P as (E1 & L1 & N1). rewrite E1. cbn [rbind]. rewrite exec_stmts_app.
+  set (T' := tsets m rs T0).
+  assert (Hiv' : frame_get iv T' = None).
+  { unfold T'. rewrite tsets_other; [exact Hiv0|]. intro j. rewrite String.eqb_sym. apply Hifiv. }
+  assert (Hoth' : forall y, (forall j, String.eqb y (if_name j) = false) -> String.eqb y iv = false -> frame_get y T' = None).
+  { intros y Hy _. unfold T'. rewrite tsets_other; [|exact Hy]. apply prow_ds_none. intros k _. apply Hy. }
+  assert (Hin' : forall j, j < prow_nifs cols -> frame_get (if_name (m + j)) T' = Some ("double", nth j rs VUninit) /\ nth j rs VUninit <> VUninit).
+  { intros j Hj. split.
+    - unfold T'. apply tsets_get; [|lia]. intros i Hi. apply Hin0. lia.
+    - rewrite Forall_forall in N1. apply N1, nth_In. lia. }
+  pose proof (prow_sets_exec (prow_branches cols nf 0) ev g n iv ar v T' Hifiv Hiv' Hoth' cols nf 0 m rs st L1 Hin' Sep Hne Nd D) as Q.
+  destruct (dprow_vals ev v cols rs) as [xs|f|k]; [|rewrite Q; reflexivity|exact I].
+  destruct Q as (st1 & E2 & F2 & R2 & Mo2 & Fi2). rewrite E2. cbn [rbind]. rewrite exec_one. cbn [exec_stmt].
+  exists T', {| frames := frames st1; members := members st1; rows := rows st1 ++ [xs] |}. split.
+  - f_equal. assert (Ef : fill_row (prow_branches cols nf 0) (istate g n iv v T' st1) = xs).
+    { rewrite <- (fill_row_pfilled cols nf 0 st1 xs Fi2). destruct g; reflexivity. }
+    rewrite Ef. destruct g; reflexivity.
+  - unfold row_emitted. cbn [frames rows members]. split; [exact F2|]. split; [congruence|]. split.
+    + intros mm Hm. unfold mget in *. cbn [members]. apply (Mo2 mm Hm).
+    + eapply pfilled_pdecl. exact Fi2.
 Qed.
 
 Lemma row_emitted_refl (cols : prow) (nf : nat) (s : state) : pdecl cols nf 0 (members s) -> row_emitted cols nf s s [].
@@ -224,40 +309,37 @@ Proof.
   exact (mem_not_shape name idx "bool_op" (S (S n)) eq_refl E).
 Qed.
 
-Lemma loop_many (ev : event) (iv : string) (ar : bool) (fill : string) (cols : prow) (nf : nat) (ps : guard) (n : nat) (l : list value) :
+Lemma loop_many (ev : event) (iv : string) (ar : bool) (fill : string) (cols : prow) (nf m : nat) (ps : guard) (n : nat) (l : list value) :
   forall (st : state),
-  (forall m, In m (pmems cols nf 0) -> fget m st = None) -> (forall m, In m (pmems cols nf 0) -> String.eqb m iv = false) ->
+  (forall j, String.eqb (if_name j) iv = false) ->
+  (forall mm, In mm (pmems cols nf 0) -> fget mm st = None) -> (forall mm, In mm (pmems cols nf 0) -> String.eqb mm iv = false) ->
   String.eqb iv (bo_name n) = false -> String.eqb (bo_name n) iv = false ->
   NoDup (pmems cols nf 0) -> pdecl cols nf 0 (members st) ->
-  let body := loop_block iv ar ps n (app_stmts (prow_sets iv ar cols nf 0) (one_stmt (SFill fill))) in
+  let body := loop_block iv ar ps n (prow_ds cols m) (many_inner fill iv ar cols nf m) in
   match many_loop ev cols ps l with
   | ROk rws => exists st', for_loop (prow_branches cols nf 0) ev iv body l st = ROk st' /\ row_emitted cols nf st st' rws
   | RFault f => for_loop (prow_branches cols nf 0) ev iv body l st = RFault f
   | RStuck _ => True
   end.
 Proof.
-  induction l as [|v r IH]; intros st Sep Hne Hib Hbi Nd D; cbn zeta; cbn [many_loop].
+  induction l as [|v r IH]; intros st Hifiv Sep Hne Hib Hbi Nd D; cbn zeta; cbn [many_loop].
   - exists st. split; [reflexivity|]. apply row_emitted_refl, D.
   - rewrite for_loop_cons.
     destruct (gpasses ev v ps) as [b|f|k] eqn:Eg; cbn [rbind]; [| |exact I].
-    + rewrite (loop_block_exec (prow_branches cols nf 0) ev iv ar ps n _ v st (many_inner_flat iv ar fill cols nf) Hib Hbi); [|rewrite Eg; exact I].
+    + rewrite (loop_block_exec (prow_branches cols nf 0) ev iv ar ps n _ _ v st (prow_ds_free cols m) Hib Hbi); [|rewrite Eg; exact I].
       rewrite Eg. destruct b.
-      * set (s0 := enter (lframe ps n iv v true) st).
-        assert (Sep0 : forall m, In m (pmems cols nf 0) -> fget m s0 = None).
-        { intros m Hm. unfold s0. rewrite fget_enter; [apply Sep, Hm|]. apply lframe_other; [apply Hne, Hm|apply (pmem_neq_bo cols nf n m Hm)]. }
-        pose proof (inner_exec ev iv ar fill "auto" v cols nf s0 (lframe_fget_iv ps n iv v true st) Sep0 Nd D) as N.
+      * pose proof (inner_exec ev ps n iv ar fill v cols nf m st Hifiv Sep (fun mm Hm => conj (Hne mm Hm) (pmem_neq_bo cols nf n mm Hm)) Nd D) as N. cbn zeta in N.
         destruct (dprow ev v cols) as [xs|f|k]; cbn [rbind]; [|rewrite N; reflexivity|exact I].
-        destruct N as (s1 & E1 & Em1). rewrite E1. cbn [rbind].
-        pose proof (row_emitted_pop cols nf _ st s1 [xs] Em1) as Em1'.
-        destruct Em1' as (F1 & R1 & M1 & D1).
-        assert (Sep1 : forall m, In m (pmems cols nf 0) -> fget m (pop_frame s1) = None).
-        { intros m Hm. unfold fget. rewrite F1. apply Sep, Hm. }
-        specialize (IH (pop_frame s1) Sep1 Hne Hib Hbi Nd D1). cbn zeta in IH.
+        destruct N as (T' & s1 & E1 & Em1). rewrite E1. cbn [rbind]. rewrite ipop_istate.
+        destruct Em1 as (F1 & R1 & M1 & D1).
+        assert (Sep1 : forall mm, In mm (pmems cols nf 0) -> fget mm s1 = None).
+        { intros mm Hm. unfold fget. rewrite F1. apply Sep, Hm. }
+        specialize (IH s1 Hifiv Sep1 Hne Hib Hbi Nd D1). cbn zeta in IH.
         destruct (many_loop ev cols ps r) as [rest|f|k]; cbn [rbind]; [|exact IH|exact I].
         destruct IH as (st' & E' & Em'). exists st'. split; [exact E'|].
         change (xs :: rest) with ([xs] ++ rest). eapply row_emitted_trans; [|exact Em']. unfold row_emitted. auto.
-      * cbn [rbind]. apply (IH st Sep Hne Hib Hbi Nd D).
-    + rewrite (loop_block_exec (prow_branches cols nf 0) ev iv ar ps n _ v st (many_inner_flat iv ar fill cols nf) Hib Hbi); [|rewrite Eg; exact I].
+      * cbn [rbind]. apply (IH st Hifiv Sep Hne Hib Hbi Nd D).
+    + rewrite (loop_block_exec (prow_branches cols nf 0) ev iv ar ps n _ _ v st (prow_ds_free cols m) Hib Hbi); [|rewrite Eg; exact I].
       rewrite Eg. reflexivity.
 Qed.
 
@@ -266,7 +348,7 @@ Proof. intros m Hm. destruct (pmems_shape cols nf 0 m Hm) as (name & idx & ->). 
 
 (* the whole block of a SelectMany body *)
 Lemma many_block_exec (bk : backend) (cr : collref) (ps : guard) (cols : prow) (n : nat) (ev : event) (st : state) :
-  let nf := n + 2 + gsize ps in
+  let nf := many_nf ps cols n in
   base_ok (c_base cr) = true -> NoDup (pmems cols nf 0) -> pdecl cols nf 0 (members st) ->
   fget (vcv_name cr n) st = None ->
   (forall m, In m (pmems cols nf 0) -> fget m st = None) ->
@@ -303,8 +385,9 @@ Proof.
   destruct cval; cbn [rbind]; try exact I; try reflexivity.
   assert (Hib : String.eqb (iv_name n) (bo_name n) = false) by (apply nm_neq; [reflexivity|reflexivity|lia]).
   assert (Hbi : String.eqb (bo_name n) (iv_name n) = false) by (apply nm_neq; [reflexivity|reflexivity|lia]).
-  pose proof (loop_many ev (iv_name n) (c_arrow cr) (b_fill bk) cols nf ps n l st2 Sep2 (pmem_neq_iv cols nf n) Hib Hbi Nd D2) as L.
-  cbn zeta in L. unfold many_inner. fold nf.
+  assert (Hifiv : forall j, String.eqb (if_name j) (iv_name n) = false) by (intro j; apply nm_neq_base; [reflexivity|reflexivity|discriminate]).
+  pose proof (loop_many ev (iv_name n) (c_arrow cr) (b_fill bk) cols nf (n + gsize ps) ps n l st2 Hifiv Sep2 (pmem_neq_iv cols nf n) Hib Hbi Nd D2) as L.
+  cbn zeta in L. fold nf.
   destruct (many_loop ev cols ps l) as [rws|f|k]; [|rewrite L; reflexivity|exact I].
   destruct L as (st3 & E3 & (F3 & R3 & M3 & D3)). rewrite E3. cbn [rbind].
   exists (pop_frame st3). split; [reflexivity|]. cbn [pop_frame rows members]. split; [|split].
@@ -321,13 +404,13 @@ Definition body_ok (b : qbody) : bool :=
 Definition query_ok (q : query) : bool :=
   (match q_filter q with None => true | Some c => bases_ok c end) && body_ok (q_body q).
 Definition bmems (b : qbody) (n : nat) : list string :=
-  match b with QRow r => rmems r (n + row_size r) 0 | QMany _ g cols => pmems cols (n + 2 + gsize g) 0 end.
+  match b with QRow r => rmems r (n + row_size r) 0 | QMany _ g cols => pmems cols (many_nf g cols n) 0 end.
 Definition bvars (b : qbody) (n : nat) : list string :=
   match b with QRow r => rvars r n | QMany cr _ _ => [vcv_name cr n] end.
 (* the state of the class members between events: every column member declared with its type, vector
    members empty *)
 Definition binit (b : qbody) (n : nat) (ms : frame) : Prop :=
-  match b with QRow r => members_init r (n + row_size r) 0 ms | QMany _ g cols => pdecl cols (n + 2 + gsize g) 0 ms end.
+  match b with QRow r => members_init r (n + row_size r) 0 ms | QMany _ g cols => pdecl cols (many_nf g cols n) 0 ms end.
 
 Lemma body_exec (bk : backend) (b : qbody) (n : nat) (ev : event) (st : state) :
   body_ok b = true -> NoDup (bmems b n) -> binit b n (members st) ->
@@ -471,7 +554,7 @@ Lemma pdecl_initial (L : list member) (cols : prow) : forall nf k,
 Proof.
   induction cols as [|[name body] t IH]; intros nf k Nd Hin; cbn [pdecl prow_members] in *; [exact I|].
   split.
-  - eexists. apply (initial_get L {| m_type := pa_type body; m_name := mem_name name (nf + k) |} Nd). apply Hin. left; reflexivity.
+  - eexists. apply (initial_get L {| m_type := btype body; m_name := mem_name name (nf + k) |} Nd). apply Hin. left; reflexivity.
   - apply IH; [exact Nd|]. intros m Hm. apply Hin. right; exact Hm.
 Qed.
 
@@ -669,4 +752,50 @@ Proof.
   intros m H1 H2. destruct (token_member_names _ _ _ H1) as (i & E & _).
   destruct (bmems_shape _ _ _ H2) as (name & idx & E2). rewrite E in E2.
   exact (mem_not_shape name idx "token" i eq_refl (eq_sym E2)).
+Qed.
+
+(* ================================================================================================ *)
+(* (g) the booked schema of a fragment query (C03)                                                  *)
+(* ================================================================================================ *)
+Definition bnames (b : qbody) : list string := match b with QRow r => map fst r | QMany _ _ cols => map fst cols end.
+Definition btypes (b : qbody) : list string :=
+  match b with QRow r => map (fun c => col_type (snd c)) r | QMany _ _ cols => map (fun c => btype (snd c)) cols end.
+
+Lemma row_members_types (r : row) : forall nf k, map m_type (row_members r nf k) = map (fun c => col_type (snd c)) r.
+Proof. induction r as [|[name c] t IH]; intros nf k; cbn [row_members map m_type snd]; [reflexivity|]. rewrite IH. reflexivity. Qed.
+Lemma prow_members_types (cols : prow) : forall nf k, map m_type (prow_members cols nf k) = map (fun c => btype (snd c)) cols.
+Proof. induction cols as [|[name body] t IH]; intros nf k; cbn [prow_members map m_type snd]; [reflexivity|]. rewrite IH. reflexivity. Qed.
+Lemma row_branches_spec (r : row) : forall nf k,
+  map br_name (map mk_branch (combine r (row_members r nf k))) = map fst r /\
+  map br_var (map mk_branch (combine r (row_members r nf k))) = map m_name (row_members r nf k).
+Proof.
+  induction r as [|[name c] t IH]; intros nf k; cbn [row_members combine map mk_branch br_name br_var fst snd m_name]; [split; reflexivity|].
+  destruct (IH nf (S k)) as [A B]. rewrite A, B. split; reflexivity.
+Qed.
+Lemma prow_branches_spec (cols : prow) : forall nf k,
+  map br_name (prow_branches cols nf k) = map fst cols /\ map br_var (prow_branches cols nf k) = map m_name (prow_members cols nf k).
+Proof.
+  induction cols as [|[name body] t IH]; intros nf k; cbn [prow_branches prow_members map br_name br_var fst m_name]; [split; reflexivity|].
+  destruct (IH nf (S k)) as [A B]. rewrite A, B. split; reflexivity.
+Qed.
+
+(* the tree of a fragment query has exactly the query's columns, in order, each of the column's type and each bound
+   to its own class member; the member names are those the job-level theorems require to be distinct *)
+Theorem frag_schema (bk : backend) (q : query) (n0 : nat) :
+  let p := prog_q bk q n0 in
+  map br_name (p_branches p) = bnames (q_body q) /\
+  map m_type (p_members p) = btypes (q_body q) /\
+  map br_var (p_branches p) = map m_name (p_members p) /\
+  map m_name (p_members p) = bmems (q_body q) (body_start q n0) /\
+  p_tree p = b_tree bk.
+Proof.
+  cbn zeta. unfold prog_q. cbn [p_branches p_members p_tree].
+  destruct (q_body q) as [r|cr ps cols]; cbn [body_branches body_members bnames btypes bmems].
+  - unfold row_branches.
+    change (map (fun m : string * column * member => {| br_name := fst (fst m); br_var := m_name (snd m) |}) (combine r (row_members r (body_start q n0 + row_size r) 0)))
+      with (map mk_branch (combine r (row_members r (body_start q n0 + row_size r) 0))).
+    destruct (row_branches_spec r (body_start q n0 + row_size r) 0) as [A B].
+    repeat split; [exact A|apply row_members_types|exact B|apply row_members_names].
+  - destruct (prow_branches_spec cols (many_nf ps cols (body_start q n0)) 0) as [A B].
+    repeat split; [exact A|apply prow_members_types|exact B|apply prow_members_names].
 Qed.
